@@ -31,7 +31,7 @@ def correspond(chk: Check) -> None:
     D = Diff(chk)
     traces = 0
     for _ in range(n):
-        ep = qos.gen_coarse(rnd)
+        ep = qos.gen_jam(rnd) if _ % 4 == 3 else qos.gen_coarse(rnd)
         res = qos.run_episode(ep)
         if res.deadlock:
             continue
